@@ -1032,6 +1032,10 @@ func judgeStreamTrace(sc *sScript, trace []sObs, hist []histEv) [][3]string {
 			}
 			if s.expectInv && ob.res != "INVALIDATE" {
 				fail("C09:no-invalidate-after-drop", fmt.Sprintf("stream %d (%v) delivered the drop of its namespace; the next call returned %s instead of an invalidate event", st.s, s.scope, ob.res), i)
+				if ob.res != "EV" {
+					s.ended = "CLOSE" // whatever state it is in: later calls are not judged again
+					break
+				}
 			}
 			switch ob.res {
 			case "EV":
